@@ -279,27 +279,17 @@ theorem PIo.checkFailures {inj : BSt → Nat → BSt} (hi : InjOK inj) (h : PIo 
     exact (hb.same (Same.setTh _ i _ ⟨rfl, rfl, rfl, rfl, rfl, rfl⟩)).frame rfl
   · exact hb
 
-theorem findFirst_spec (s : BSt) (l : List Nat) :
-    Same s (cleanupContexts.go.findFirst s l).1 ∧
-    ∀ i, (cleanupContexts.go.findFirst s l).2 = some i → ((cleanupContexts.go.findFirst s l).1.th i).buf = [] := by
+theorem findFirst_spec (s : BSt) (l : List Nat) : Same s (cleanupContexts.go.findFirst s l).1 := by
   induction l generalizing s with
-  | nil => exact ⟨Same.refl _, fun i h => by cases h⟩
+  | nil => exact Same.refl _
   | cons x xs ih =>
     unfold cleanupContexts.go.findFirst
     split
     · exact ih s
     · simp only
       split
-      · rename_i h2
-        refine ⟨same_ctxEmpty s x, fun i hi => ?_⟩
-        cases hi
-        have e := (same_ctxEmpty s x).th x
-        rw [e.buf]
-        unfold ctxEmpty at h2
-        simp only [Bool.and_eq_true, List.isEmpty_iff] at h2
-        exact h2.2
-      · obtain ⟨i1, i2⟩ := ih (ctxEmpty s x).1
-        exact ⟨(same_ctxEmpty s x).trans i1, i2⟩
+      · exact same_ctxEmpty s x
+      · exact (same_ctxEmpty s x).trans (ih _)
 
 /-- an invalidated, drained context leaves the registry and the cache -/
 theorem PIo.remove (h : PIo fl s) (i : Nat) (n : Nat) :
@@ -323,13 +313,12 @@ theorem PIo.remove (h : PIo fl s) (i : Nat) (n : Nat) :
               popFloor := o.popFloor, bufFloor := o.bufFloor
               late := fun j hj => o.late j (List.mem_filter.mp hj).1 } }
 
-theorem PIo.cleanupGo {inj : BSt → Nat → BSt} (hi : InjOK inj) (fuel : Nat) (s : BSt) (h : PIo fl s) :
-    PIo fl (cleanupContexts.go inj fuel s) := by
+theorem PIo.cleanupGo (fuel : Nat) (s : BSt) (h : PIo fl s) : PIo fl (cleanupContexts.go fuel s) := by
   induction fuel generalizing s with
   | zero => exact h
   | succ n ih =>
     unfold cleanupContexts.go
-    obtain ⟨f1, _⟩ := findFirst_spec s s.cache
+    have f1 := findFirst_spec s s.cache
     split
     · rename_i s1 heq
       rw [heq] at f1; exact h.same f1
@@ -337,21 +326,14 @@ theorem PIo.cleanupGo {inj : BSt → Nat → BSt} (hi : InjOK inj) (fuel : Nat) 
       rw [heq] at f1
       apply ih
       have h1 : PIo fl s1 := h.same f1
-      -- the failure counters are reported once more (site 8 inside) before the context goes away
-      have h1' : PIo fl (if s1.cfg.cleanupReportsCounter = true then Backend.checkFailures inj s1 else s1) := by
-        split
-        · exact h1.checkFailures hi
-        · exact h1
-      have h2 := h1'.remove i (counterMod (if s1.cfg.cleanupReportsCounter = true then Backend.checkFailures inj s1 else s1).cfg
-        ((if s1.cfg.cleanupReportsCounter = true then Backend.checkFailures inj s1 else s1).invalidCnt +
-          2 ^ (if s1.cfg.cleanupReportsCounter = true then Backend.checkFailures inj s1 else s1).cfg.invalidBits - 1))
+      have h2 := h1.remove i (counterMod s1.cfg (s1.invalidCnt + 2 ^ s1.cfg.invalidBits - 1))
       exact h2.same (Same.setTh _ i _ ⟨rfl, rfl, rfl, rfl, rfl, rfl⟩)
 
-theorem PIo.cleanupContexts {inj : BSt → Nat → BSt} (hi : InjOK inj) (h : PIo fl s) : PIo fl (cleanupContexts inj s) := by
+theorem PIo.cleanupContexts (h : PIo fl s) : PIo fl (cleanupContexts s) := by
   unfold Backend.cleanupContexts
   split
   · exact h
-  · exact PIo.cleanupGo hi _ _ h
+  · exact PIo.cleanupGo _ _ h
 
 theorem PIo.frame {s s' : BSt} (h : PIo fl s) (hc : core s' = core s) : PIo fl s' := h.same (Same.ofCore hc)
 
